@@ -34,6 +34,9 @@ pinned configuration regenerated from heapq.go (`current_cfg_ok`) and the repair
 * `C08_full_repaired` – for the repaired heap configuration (`CfgRepaired`: `parent i = (i-1)/2`, guarded
   sift-up in `pop`) the cache refines the reference LRU cache on **every** history: F2 (with F1) is the
   only obstacle.
+* `C08_current` – every test, size/count update, clock step, time stamp and the `comparePrio` comparison of the
+  model is a definition of `Gen.Cache`, regenerated from cache.go/lru.go on every run by
+  `extract/cachecore.go`; the theorem pins each of them to the expression the proofs are about.
 -/
 namespace MdsVerif.Props.C08
 open MdsVerif.Model MdsVerif.Model.Cache MdsVerif.Proofs.Cache MdsVerif.Spec
@@ -506,6 +509,67 @@ set_option maxRecDepth 100000 in
 example : (exec Props.C05.repaired (fun _ => 1) (empty 8) f2ops).evicted.head? = some (2, 40) ∧
     (exec Props.C05.repaired (fun _ => 1) (empty 8) f2ops).evicted =
       (execRef (fun _ => 1) { limit := 8 } f2ops).evicted := by
+  decide
+
+/-- **C08_current.**  The facts regenerated from `cache/cache.go` and `cache/lru.go` (`Gen.Cache`,
+`extract/cachecore.go`) are the pinned ones, and the extractor recognised the statement skeleton of every
+function it looks at.  `Model.Cache` is built from exactly these definitions (the refusal test of `Put`, every
+size/count update, the loop conditions of `Put` and `Clear`, `Clear`'s consistency test, the clock ticks and
+time stamps of `Access`/`Store`, the comparison of `comparePrio`), so the theorems above are about the
+expressions that are in the source now; the facts that are not expressions (which store method is called where,
+`Check` does not tick the clock, `Access` removes at the recorded position and re-adds, `Remove`/`Evict` delete
+the key from `present`, the `Update` callback records positions, the default size) are pinned as `Bool`s and
+constants.  A one-token change in any of them changes `Gen/Cache.lean` and this theorem (and the `*_def`
+lemmas of `Proofs.Cache`) no longer compile. -/
+theorem C08_current :
+    Gen.Cache.recognised = true ∧
+    -- New
+    (∀ limit, Gen.Cache.newPanics limit = decide (limit ≤ 0)) ∧
+    -- Put
+    (∀ valSize limit, Gen.Cache.putRefuses valSize limit = decide (valSize > limit)) ∧
+    Gen.Cache.putReplaceSteps = true ∧
+    (∀ size oldSize, Gen.Cache.replaceSize size oldSize = size - oldSize) ∧
+    (∀ count, Gen.Cache.replaceCount count = count - 1) ∧
+    (∀ size valSize, Gen.Cache.putNewSize size valSize = size + valSize) ∧
+    (∀ newSize limit, Gen.Cache.putEvicts newSize limit = decide (newSize > limit)) ∧
+    Gen.Cache.putEvictSteps = true ∧
+    (∀ count, Gen.Cache.evictCount count = count - 1) ∧
+    (∀ newSize evSize, Gen.Cache.evictNewSize newSize evSize = newSize - evSize) ∧
+    Gen.Cache.putStoresLast = true ∧
+    (∀ size newSize, Gen.Cache.putSize size newSize = newSize) ∧
+    (∀ count, Gen.Cache.putCount count = count + 1) ∧
+    -- Remove
+    Gen.Cache.removeSteps = true ∧
+    (∀ size oldSize, Gen.Cache.removeSize size oldSize = size - oldSize) ∧
+    (∀ count, Gen.Cache.removeCount count = count - 1) ∧
+    -- Clear
+    (∀ count, Gen.Cache.clearContinues count = decide (count > 0)) ∧
+    Gen.Cache.clearSteps = true ∧
+    (∀ size evSize, Gen.Cache.clearSize size evSize = size - evSize) ∧
+    (∀ count, Gen.Cache.clearCount count = count - 1) ∧
+    (∀ size count, Gen.Cache.clearInconsistent size count = (decide (size ≠ 0) || decide (count ≠ 0))) ∧
+    Gen.Cache.defaultSize = 1 ∧
+    -- lru.go
+    (∀ a b, Gen.Cache.prioLess a b = decide (a < b)) ∧
+    Gen.Cache.updateRecordsPos = true ∧
+    Gen.Cache.checkTicks = false ∧
+    Gen.Cache.checkPeeksAtPos = true ∧
+    (∀ clock, Gen.Cache.accessClock clock = clock + 1) ∧
+    (∀ clock, Gen.Cache.accessStamp clock = clock) ∧
+    Gen.Cache.accessRemovesThenAdds = true ∧
+    (∀ clock, Gen.Cache.storeClock clock = clock + 1) ∧
+    (∀ clock, Gen.Cache.storeStamp clock = clock) ∧
+    Gen.Cache.storeAddsAndRecords = true ∧
+    Gen.Cache.removeDeletesKey = true ∧
+    Gen.Cache.evictDeletesKey = true :=
+  ⟨rfl, fun _ => rfl, fun _ _ => rfl, rfl, fun _ _ => rfl, fun _ => rfl, fun _ _ => rfl, fun _ _ => rfl, rfl,
+   fun _ => rfl, fun _ _ => rfl, rfl, fun _ _ => rfl, fun _ => rfl,
+   rfl, fun _ _ => rfl, fun _ => rfl,
+   fun _ => rfl, rfl, fun _ _ => rfl, fun _ => rfl, fun _ _ => rfl, rfl,
+   fun _ _ => rfl, rfl, rfl, rfl, fun _ => rfl, fun _ => rfl, rfl, fun _ => rfl, fun _ => rfl, rfl, rfl, rfl⟩
+
+/-- the model's entry order is the regenerated comparison: `ltEntry a b` iff `a` was accessed earlier -/
+example : ltEntry ⟨3, 0, 0⟩ ⟨4, 1, 1⟩ = true ∧ ltEntry ⟨4, 0, 0⟩ ⟨4, 1, 1⟩ = false ∧ ltEntry ⟨5, 0, 0⟩ ⟨4, 1, 1⟩ = false := by
   decide
 
 end MdsVerif.Props.C08
